@@ -8,6 +8,7 @@ Import-free (apart from the model), so this links as a native executable.
 -/
 import TypedPathVerif.Model.Path
 import TypedPathVerif.Spec.StdSpec
+import TypedPathVerif.Spec.StdBuf
 
 open TP
 
@@ -122,6 +123,28 @@ def runHist (e : Enc) (buf : Bytes) : List String → Option (List String)
         else none
     | _ => none
 
+/-- histories on the *specification* of std::path::PathBuf (Spec/StdBuf.lean) -/
+def runStdHist (buf : Bytes) : List String → Option (List String)
+  | [] => some []
+  | op :: ops =>
+    match op.splitOn ":" with
+    | ["pop"] =>
+      let r := StdBuf.stdStep buf .pop
+      (runStdHist r.1 ops).map (fun t => s!"{hexOf r.1}:{showBool r.2}" :: t)
+    | ["clear"] => (runStdHist [] ops).map (fun t => hexOf [] :: t)
+    | [name, arg] =>
+      match parseHex arg with
+      | none => none
+      | some a =>
+        if name = "push" then
+          let r := StdBuf.stdStep buf (.push a)
+          (runStdHist r.1 ops).map (fun t => hexOf r.1 :: t)
+        else if name = "setfn" then
+          let r := StdBuf.stdStep buf (.setFileName a)
+          (runStdHist r.1 ops).map (fun t => hexOf r.1 :: t)
+        else none
+    | _ => none
+
 def badOp : String := "bad-op"
 
 def step (line : String) : String :=
@@ -211,6 +234,13 @@ def step (line : String) : String :=
   | ["derive", h] =>
     match parseHex h with
     | some b => if deriveIsWindows b then "w" else "u"
+    | none => badOp
+  | "stdhist" :: start :: ops =>
+    match parseHex start with
+    | some b =>
+      match runStdHist b ops with
+      | some out => " ".intercalate out
+      | none => badOp
     | none => badOp
   | "hist" :: e :: start :: ops =>
     match parseEnc e, parseHex start with
